@@ -38,6 +38,7 @@ pub(crate) fn c07_load() {
     let n2: usize = vany();
     vassume(n1 <= 3 && n2 <= 3);
     vcover!(n1 == 3 && n2 == 2, "pre.shape");
+    vcover!(n1 == 0 && n2 == 0, "pre.empty-image");
     let l1: Vec<u8> = bytes[..n1].to_vec();
     let l2: Vec<u8> = bytes[3..3 + n2].to_vec();
     let ss = any_stacksize();
@@ -76,6 +77,42 @@ pub(crate) fn c07_load() {
     vassert!(m.step_mode() == old.step_mode(), "C07.R.load.step-mode-untouched");
 }
 
+/// Thorough tier: the "followed by zeros" clause again with an unwind bound that covers loops over the
+/// whole RAM (a rewritten fill that iterates over all 240 cells is then unwound completely instead of
+/// leaving the check undecided).  Machine concrete except three stale RAM cells; image shapes concrete.
+fn load_clears_stale(n: usize) {
+    let mut m = Machine::new(MachineConfig::default());
+    let stale: [u8; 3] = vany();
+    {
+        let mem = m.raw_mut().bus_mut().memory_mut();
+        mem[0] = stale[0];
+        mem[1] = stale[1];
+        mem[0xEF] = stale[2];
+    }
+    let bytes: [u8; 2] = vany();
+    vcover!(stale[0] != 0, "pre.stale-first-cell");
+    let program = crate::compiler::ByteCode {
+        lines: vec![(Line::Empty(None), bytes[..n].to_vec())],
+        stacksize: Stacksize::_16,
+        programsize: Programsize::Auto,
+    };
+    m.load(program);
+    let i: usize = vany();
+    vassume(i < 0xF0);
+    let exp = if i < n { bytes[i] } else { 0 };
+    vassert!(m.bus().memory()[i] == exp, "C07.R.load.ram-is-image-then-zeros");
+}
+#[cfg_attr(kani, kani::proof)]
+#[cfg_attr(kani, kani::unwind(245))]
+pub(crate) fn c07_x_load_empty_clears_stale_ram() {
+    load_clears_stale(0)
+}
+#[cfg_attr(kani, kani::proof)]
+#[cfg_attr(kani, kani::unwind(245))]
+pub(crate) fn c07_x_load_one_byte_clears_stale_ram() {
+    load_clears_stale(1)
+}
+
 fn cpu_side_reset_post_but_limits(old: &RawMachine, new: &RawMachine) -> bool {
     let mut o = old.clone();
     o.set_stacksize(new.stacksize());
@@ -83,4 +120,4 @@ fn cpu_side_reset_post_but_limits(old: &RawMachine, new: &RawMachine) -> bool {
     cpu_side_reset_post(&o, new)
 }
 
-crate::replay_table!(verif_replay_c07m; c07_machine_resets, c07_load,);
+crate::replay_table!(verif_replay_c07m; c07_machine_resets, c07_load, c07_x_load_empty_clears_stale_ram, c07_x_load_one_byte_clears_stale_ram,);
